@@ -8,7 +8,7 @@ package ecs
 // permutation of every ranged map (vmaporder) and compares the digests; natively the
 // comparison is repeated vreps() times against Go's randomised map order.
 
-const vDigN = 200
+const vDigN = 400
 
 type vDigest struct {
 	v [vDigN]uint64
